@@ -21,6 +21,7 @@ import ast
 import re
 
 from .. import rx, templates as T
+from ..interp import LoopTruncated
 from ..interp import (AbstractValue, Interp, Oracle, Obj, Unknown, enumerate_paths, Raised, RxVal,
                       is_abstract, BoundMethod)
 from ..domains import AbsInt
@@ -272,8 +273,12 @@ def run(ctx):
                         v = it.call_function(func, [r, tok], {})
                     except Raised as e:
                         return ('raise', e, calls, tok, r)
+                    except LoopTruncated:
+                        return ('trunc', None, calls, tok, r)
                     return ('ret', v, calls, tok, r)
                 for trace, (kind, v, calls, tok, r) in enumerate_paths(runner, 400):
+                    if kind == 'trunc':
+                        continue        # a scanner loop over the rendered text, cut at the unrolling bound
                     if kind == 'raise':
                         ok, why = False, 'raises %s' % v.exc.kind
                     else:
